@@ -78,7 +78,7 @@ func gen(r *sim.Rng, tier string) *sim.Case {
 				p["scaled"] = g
 			}
 		}
-		p["breaker"] = r.Pick(3, 3, 3, 1) // 0 none, 1 prefer fewer items, 2 prefer new, 3 prefer fewer and call the package from inside
+		p["breaker"] = r.Pick(6, 6, 6, 2, 1) // 0 none, 1 prefer fewer items, 2 prefer new, 3 prefer fewer and call the package from inside, 4 an explicit nil (a forwarded optional callback)
 		if r.Pct(15) {
 			p["again"] = 1 // an unrelated second call before the first result is read
 		}
@@ -227,6 +227,9 @@ func breakerOf(k int) []func(old, new []item) bool {
 			_ = d.Best(6)
 			return len(n) < len(o) && len(s) == 2
 		}}
+	case 4:
+		// the caller forwards its own optional callback, which is nil: same as none
+		return []func(old, new []item) bool{nil}
 	}
 	return nil
 }
